@@ -243,7 +243,11 @@ pub fn agrees(exp: &MVal, obs: &Val, out: &str) -> bool {
         (MVal::Money(a, c), Val::Money { v, code }) => close(*a, v.0) && c.eq_ignore_ascii_case(code),
         (MVal::Dur { secs, .. }, Val::Dur { secs: s, nanos }) => secs == s && *nanos == 0,
         (MVal::Date(d), Val::Date { days, .. }) => d == days,
-        (MVal::Time { wall, zone, off }, Val::Time { utc, zone: z, off: o, .. }) => rem(*utc + *o as i64 * 60) == rem(*wall) && off == o && zone.eq_ignore_ascii_case(z),
+        (MVal::Time { wall, zone, off }, Val::Time { utc, zone: z, off: o, .. }) => {
+            let w = rem(*wall);
+            rem(*utc + *o as i64 * 60) == w && off == o && zone.eq_ignore_ascii_case(z)
+                && out.eq_ignore_ascii_case(&format!("{:02}:{:02}:{:02} {}", w / 3600, (w / 60) % 60, w % 60, zone))
+        }
         (MVal::DateTime { utc, zone, off }, Val::DateTime { utc: u, zone: z, off: o, .. }) => utc == u && off == o && zone.eq_ignore_ascii_case(z),
         (MVal::Unit(a, f, i), Val::Unit { v, group, index, .. }) => close(*a, v.0) && f == group && i == index,
         _ => false,
@@ -292,10 +296,14 @@ pub fn shape(e: &Expr) -> String {
         Expr::Paren(x) => format!("paren({})", shape(x)),
         Expr::ToCur { e, .. } => format!("tocur({})", shape(e)),
         Expr::ToZone { e, .. } => format!("tozone({})", shape(e)),
-        Expr::Between { a, b } => format!("between({},{})", shape(a), shape(b)),
+        Expr::Between { a, b } => {
+            // for differences only "has a zone" matters, not the literal's spelling
+            let coarse = |e: &Expr| -> String { match e { Expr::Lit(Lit::Time(t)) => if t.zone.is_some() { "time[zone]".into() } else { "time".into() }, other => shape(other) } };
+            format!("between({},{})", coarse(a), coarse(b))
+        }
         Expr::AsUnix { e, .. } => format!("asunix({})", shape(e)),
         Expr::FromUnix { e, zone, .. } => format!("fromunix({}{})", shape(e), if zone.is_some() { ",zone" } else { "" }),
-        Expr::At { d, t } => format!("at({},{})", shape(d), shape(t)),
+        Expr::At { d, t } => format!("at({},{})", shape(d), match &**t { Expr::Lit(Lit::Time(_)) => "time".to_string(), other => shape(other) }),
     }
 }
 
